@@ -20,12 +20,13 @@ def dispatch (prop : String) (inp out : List String) : Verdict :=
   | "C13" => C13.check inp out
   | "C03" => SessDrv.check "C03" inp out
   | "C04" => SessDrv.check "C04" inp out
-  | "C05" => SessDrv.check "C05" inp out
+  | "C05" => if inp.head? == some "bus" then BusDrv.check inp out else SessDrv.check "C05" inp out
   | "C14" => SessDrv.check "C14" inp out
   | "C06" => if inp.head? == some "auth" then AuthDrv.check "C06" inp out else DrvDrv.check "C06" inp out
   | "C09" => DirDrv.check inp out
   | "C18" => InpDrv.check inp out
-  | "C15" => if inp.head? == some "auth" then AuthDrv.check "C15" inp out else BusDrv.check inp out
+  | "C15" => if inp.head? == some "auth" then AuthDrv.check "C15" inp out
+             else if inp.head? == some "dirq" then DirDrv.check inp out else BusDrv.check inp out
   | "C10" => AuthDrv.check "C10" inp out
   | "C20" => AuthDrv.check "C20" inp out
   | "C16" => TaskDrv.check inp out
